@@ -121,6 +121,7 @@ func (w *world) explainID(wn win, id uint32, redo func() (uint32, bool)) (from, 
 	if off := findID(id, wn.data); off >= 0 {
 		w.oracles["id"] = true
 		w.markEff(wn, off, off+4)
+		w.noteLeftover(wn, off, 4)
 		return off, off + 4, true
 	}
 	usedAgo := 0
@@ -149,11 +150,13 @@ func (w *world) explainID(wn win, id uint32, redo func() (uint32, bool)) (from, 
 	}
 	fail := func(why string) (int, int, bool) {
 		if usedAgo > 0 {
-			// Four bytes can coincide with some of the last 2^20 issued bytes by chance
-			// (2^-11), so a match with USED bytes alone proves nothing; together with
-			// the failure of every other explanation it names the defect.
-			r.Violation("C20/randomness-reused:keyset.Manager.keyID", fmt.Sprintf("manager returned key ID %08x: its bytes were issued %d bytes before this call and already make up an earlier judged field (the same random bytes were handed out twice), and %s", id, usedAgo, why))
-			return 0, 0, false
+			// Four bytes coincide with some of the last 2^20 issued bytes with
+			// probability 2^-11, and a worker sees thousands of IDs: a match with USED
+			// bytes proves neither reuse nor provenance. No verdict on this ID — reuse is
+			// left to fields of 7 bytes or more, the exact pairwise-distinct check and
+			// the spread statistics.
+			r.Count("keyid-matches-only-used-bytes", 1)
+			return 0, 0, true
 		}
 		r.Violation("C20/keyid-not-from-rng", fmt.Sprintf("manager returned key ID %08x; it is not the value of four bytes issued during the call (%s), and %s", id, core.Hex(wn.data, 16), why))
 		return 0, 0, false
